@@ -248,6 +248,8 @@ STATEMENTS = [
     'return g(*{va}, **MAP0)',
     'return g(*ITERABLE0, **{vk})',
     'return g(*GEN1, **{vk})',
+    'return proxy0(*{va}, **{vk})',
+    'return proxy1(*{va}, **{vk})',
     # an expression nested deeper than the interpreter's recursion limit lets a visitor descend
     'return g(*{va}, **{vk})' + ' + 1' * 1500,
     'return f(*{va}, extra0=1, **{vk})',
@@ -629,6 +631,10 @@ def gen_construct(ch):
              'class Map0(collections.abc.Mapping):\n    def __getitem__(self, k):\n        raise RuntimeError("read")\n'
              '    def __iter__(self):\n        raise RuntimeError("iterated")\n    def __len__(self):\n        return 1\n'
              '    def keys(self):\n        raise RuntimeError("keys")\nMAP0 = Map0()\n'
+             'class Proxy0(object):\n    def __getattr__(self, name):\n        raise RuntimeError("working outside of context")\n'
+             '    def __call__(self, *a, **k):\n        return None\nproxy0 = Proxy0()\n'
+             'class Proxy1(object):\n    def __getattr__(self, name):\n        raise LookupError(name)\n'
+             '    def __call__(self, x, y=1):\n        return None\nproxy1 = Proxy1()\n'
              'class Iterable0(object):\n    def __iter__(self):\n        raise OSError("iterated")\nITERABLE0 = Iterable0()\n'
              'NONE0 = None\nNUM0 = 5\nSTR0 = "ab"\nDICT0 = {"y": 1}\nLIST0 = [1]\n'
              '@contextlib.contextmanager\ndef contextmanager0():\n    yield 1\n')
